@@ -47,7 +47,7 @@ def _types() -> dict[str, Any]:
     from hv.gen import c20types
 
     g = globals()
-    g["Holder"], g["SeqHolder"], g["BareHolder"] = c20types.Holder, c20types.SeqHolder, c20types.BareHolder
+    g["Holder"], g["SeqHolder"], g["BareHolder"], g["NestedUnionHolder"] = c20types.Holder, c20types.SeqHolder, c20types.BareHolder, c20types.NestedUnionHolder
     return g
 
 
@@ -59,7 +59,7 @@ class AlwaysEq:
         return 7
 
 
-WRAPPERS = ("list", "tuple", "dict", "state", "stateseq", "barestate")
+WRAPPERS = ("list", "tuple", "dict", "state", "stateseq", "barestate", "nestedunionstate")
 
 
 def wrap(kind: str, inner: Any, sib: Any = None) -> Any:
@@ -74,6 +74,8 @@ def wrap(kind: str, inner: Any, sib: Any = None) -> Any:
         return g["Holder"](value=inner, tag=1)
     if kind == "barestate":
         return g["BareHolder"](value=inner, tag=2)
+    if kind == "nestedunionstate":
+        return g["NestedUnionHolder"](value=inner, tag=3)
     return g["SeqHolder"](items=[inner] if sib is None else [sib, inner])
 
 
@@ -90,7 +92,7 @@ def walk(a: Any, b: Any, path: str, out: list[tuple[str, Any, Any]]) -> None:
     elif isinstance(a, dict) and isinstance(b, dict) and a.keys() == b.keys():
         for k in a:
             walk(a[k], b[k], f"{path}[{k!r}]", out)
-    elif isinstance(a, (g["Holder"], g["SeqHolder"], g["BareHolder"])) and type(a) is type(b):
+    elif isinstance(a, (g["Holder"], g["SeqHolder"], g["BareHolder"], g["NestedUnionHolder"])) and type(a) is type(b):
         for k in type(a).__ATTRIBUTES__:
             walk(getattr(a, k, None), getattr(b, k, None), f"{path}.{k}", out)
     else:
@@ -368,10 +370,18 @@ def run(R: Recorder, tier: str, seed: int, shard: int, nshards: int) -> None:
             n += 1
             if n % nshards != shard:
                 continue
+            if any(a == "nestedunionstate" and b == "dict" for a, b in zip(chain, chain[1:])):
+                continue  # that holder admits sequences, states and the missing value - not mappings
             v: Any = M
-            for kind in reversed(chain):
-                v = wrap(kind, v)
-            for op in OPS + (STATE_OPS if chain and chain[0] in ("state", "barestate", "stateseq") else []):
+            try:
+                for kind in reversed(chain):
+                    v = wrap(kind, v)
+            except Exception as exc:  # noqa: BLE001
+                # a State class that admits the missing value could not be built around it
+                R.case({"shape": list(chain), "op": "construct"}, nontrivial=True)
+                R.monitor("identity", False, where={"op": "construct", "kind": "raised", "top": chain[0]}, detail=f"building {list(chain)} around MISSING raised {type(exc).__name__}: {exc}", case={"shape": list(chain), "op": "construct"})
+                continue
+            for op in OPS + (STATE_OPS if chain and chain[0] in ("state", "barestate", "stateseq", "nestedunionstate") else []):
                 check_roundtrip(R, list(chain), v, op, depth)
             # a variant with a look-alike sibling next to the innermost MISSING
             if depth >= 1:
